@@ -14,13 +14,13 @@ Require Import ExcerptModel Model Spec Refine Entry Finalize EntryProofs.
    - the rule does not match        =>  ParseError;
    - nothing else (no Crash), also on the empty text and for zero-width matches. *)
 Theorem C08_three_outcomes :
-  forall (g funs : list (list nat * expr)) (named : bool) (ignored : option nat)
+  forall (g funs : list (list nat * expr)) (ignored : option nat)
          (t : list nat) (rx : nat -> nat -> option nat),
     (forall r b, nth_error g r = Some ([], b) -> wf g ignored t rx [] b) ->
     (forall r, ignored = Some r -> exists es, nth_error g r = Some ([], Skip es)) ->
     forall fuel entry b p full, nth_error g entry = Some ([], b) ->
       match peg g ignored t rx fuel [] b p,
-            parse_model true g funs named ignored t rx fuel entry p full with
+            parse_model true g funs ignored t rx fuel entry p full with
       | Spec.Fuel, Entry.Fuel => True
       | Raise, _ => True
       | Match v q, o => o = (if full && Nat.ltb q (length t)
@@ -49,6 +49,6 @@ Print Assumptions C08_finalisation_outside.
 (* non-vacuity: a zero-width class instance on the EMPTY text returns normally *)
 Definition ex_g : list (list nat * expr) := [([], Class 1 [(Some 1, true, Opt (Str [97] false))])].
 Example C08_zero_width_on_empty_text :
-  parse_model true ex_g [] false None [] (fun _ _ => None) 10 0 0 true
+  parse_model true ex_g [] None [] (fun _ _ => None) 10 0 0 true
   = Return (FObj 1 [FNone] ((0%Z, None), ((-1)%Z, None))).
 Proof. vm_compute. reflexivity. Qed.
